@@ -25,6 +25,7 @@ structure CoreGenesis where
   h : Nat
   t : Nat
   p : Params
+  sqp : SeqParams                              -- x/sequencer genesis params
   rollapps : List GRollapp
   stateInfos : List (Nat × Nat × SInfo)        -- (rollapp, index, state info), in store order
   latestIdx : List (Nat × Nat)                 -- LatestStateInfoIndexList
@@ -51,7 +52,7 @@ def gOf (r : Rollapp) : GRollapp :=
 
 /-- `ExportGenesis` of both modules -/
 def exportCore (s : St) : CoreGenesis :=
-  { h := s.h, t := s.t, p := s.p,
+  { h := s.h, t := s.t, p := s.p, sqp := s.sqp,
     rollapps := s.ras.map gOf,
     stateInfos := s.ras.flatMap fun r => indexed r.states r.id,
     latestIdx := (s.ras.filter fun r => !r.states.isEmpty).map fun r => (r.id, r.states.length),
@@ -79,7 +80,7 @@ def importNq (seqs : List Seq) (addrs : List Addr) : List (Nat × Addr) :=
 
 /-- `InitGenesis` of both modules -/
 def importCore (g : CoreGenesis) : St :=
-  { h := g.h, t := g.t, p := g.p,
+  { h := g.h, t := g.t, p := g.p, sqp := g.sqp,
     ras := g.rollapps.map (importRollapp g),
     seqs := g.seqs, queue := g.queue, seqH := g.seqH, lev := g.lev, obsolete := g.obsolete,
     nq := importNq g.seqs g.nq,
